@@ -9,8 +9,12 @@ import collections
 
 
 class CBus:
-    def __init__(self, rng, policy="random", hold=None, p_idle=0.2):
-        self.rng, self.policy, self.hold, self.p_idle = rng, policy, hold, p_idle
+    def __init__(self, rng, policy="random", hold=None, p_idle=0.2, ack=None, per_topic=False):
+        # per_topic: the topics of one consumer advance independently (a handler per topic: one message at a time per
+        # topic, but a consumer may be handling messages of several of its topics at once)
+        # ack: produce() returns only some event-loop steps after the message has been appended (a broker's
+        # acknowledgement): by then the message may have been delivered and handled, and answers to it may be on their way
+        self.rng, self.policy, self.hold, self.p_idle, self.ack, self.per_topic = rng, policy, hold, p_idle, ack, per_topic
         self.log = collections.defaultdict(list)         # topic -> messages
         self.consumers = []
         self.wake = None
@@ -41,10 +45,10 @@ class CBus:
     def _candidates(self):
         out = []
         for c in self.consumers:
-            if c.busy:
+            if c.busy and not self.per_topic:
                 continue
             for t, k in c.cursor.items():
-                if k < len(self.log[t]):
+                if k < len(self.log[t]) and t not in c.busy_topics:
                     out.append((c, t))
         return out
 
@@ -62,7 +66,7 @@ class CBus:
                 return self.rng.choice(others)
         return self.rng.choice(cands)
 
-    async def _run(self, cons, msg):
+    async def _run(self, cons, msg, topic=None):
         try:
             await cons.callback(msg)
         except asyncio.CancelledError:
@@ -72,6 +76,7 @@ class CBus:
             self.errors.append(repr(e) + " :: " + " | ".join(l.strip() for l in traceback.format_exc().splitlines()[-7:]))
         finally:
             cons.busy = False
+            cons.busy_topics.discard(topic)
             self.wake.set()
 
     async def _pump(self):
@@ -91,15 +96,17 @@ class CBus:
             msg = self.log[t][c.cursor[t]]
             c.cursor[t] += 1
             c.busy = True
+            if self.per_topic:
+                c.busy_topics.add(t)
             self.delivered += 1
-            asyncio.get_event_loop().create_task(self._run(c, msg))
+            asyncio.get_event_loop().create_task(self._run(c, msg, t))
             await asyncio.sleep(0)
 
 
 def make_interface(bus):
     class CConsumer:
         def __init__(self, callback):
-            self.callback, self.cursor, self.busy = callback, {}, False
+            self.callback, self.cursor, self.busy, self.busy_topics = callback, {}, False, set()
             bus.consumers.append(self)
 
         async def subscribe(self, topics):
@@ -111,5 +118,8 @@ def make_interface(bus):
 
         async def produce(self, topic, value):
             bus.produce(topic, value)
+            if bus.ack is not None:
+                for _ in range(bus.rng.choice(bus.ack)):
+                    await asyncio.sleep(0)
 
     return CConsumer, CProducer
